@@ -213,6 +213,7 @@ func (ex *Exec) mapLen(st *State, m Val) string {
 	f := ex.uf("card_"+sanitize(ks), []string{"(Array " + ks + " Bool)"}, sInt, selectT(em.heapGet(st, dn, ds), m.E))
 	em.global(fmt.Sprintf("(assert (forall ((d (Array %s Bool))) (! (>= (card_%s d) 0) :pattern ((card_%s d)))))", ks, sanitize(ks), sanitize(ks)))
 	em.global(fmt.Sprintf("(assert (= (card_%s ((as const (Array %s Bool)) false)) 0))", sanitize(ks), ks))
+	em.global(fmt.Sprintf("(assert (forall ((d (Array %s Bool))) (! (=> (= (card_%s d) 0) (= d ((as const (Array %s Bool)) false))) :pattern ((card_%s d)))))", ks, sanitize(ks), ks, sanitize(ks)))
 	return f
 }
 
@@ -288,6 +289,14 @@ func (ex *Exec) rangeNext(i *ssa.Next) Val {
 	v := ex.mapGet(ex.curSt, it, k)
 	v.E = em.define("rng_v", v.S, v.E)
 	em.assume(ok.E, ex.mapHas(ex.curSt, it, k))
+	if !blockInCycle(i.Block()) {
+		// this Next runs at most once per range statement (the body leaves the loop): it yields a key iff the map is
+		// not empty
+		dn, ds, _, _ := mapHeaps(em, mt)
+		ks := em.sortOf(mt.Key())
+		dom := selectT(em.heapGet(ex.curSt, dn, ds), it.E)
+		em.emit(fmt.Sprintf("(assert (= %s (not (= %s ((as const (Array %s Bool)) false)))))", ok.E, dom, ks))
+	}
 	em.Assumed["range over map: each iteration yields an arbitrary present key (order/termination not modelled)"] = true
 	return Val{Tuple: []Val{ok, k, v}, T: tup}
 }
